@@ -46,8 +46,9 @@ def res_repr(r):
 
 
 class Gate:
-    def __init__(self, agents, events, clock, freeze=False, eager=False):
+    def __init__(self, agents, events, clock, freeze=False, eager=False, lifo=False):
         self.agents, self.events, self.parked, self.clock = agents, events, [], clock
+        self.lifo = lifo
         self.freeze, self.eager = freeze, eager     # freeze: the clock stands still (concurrent requests share their id); eager: the agent
         self.args = {}                              # answers at once and the network delays / reorders the answers
 
@@ -64,7 +65,11 @@ class Gate:
         return await fut
 
     async def release(self, op):
-        for i, (o, fut, packet, endpoint, reply) in enumerate(self.parked):
+        # an operation may have several requests in flight: answer its oldest one (default) or its newest one (lifo)
+        idx = [i for i, p in enumerate(self.parked) if p[0] == op]
+        order = [idx[-1]] if (self.lifo and idx) else idx[:1]
+        for i in order:
+            o, fut, packet, endpoint, reply = self.parked[i]
             if o == op:
                 del self.parked[i]
                 ag = self.agents[str(endpoint.ip)]
@@ -90,7 +95,7 @@ async def run_schedule(sc):
     nclients = sc.get("clients", 1)
     agents = {}
     clients = []
-    gate = Gate(agents, events, clock, freeze=bool(sc.get("freeze")), eager=bool(sc.get("eager")))
+    gate = Gate(agents, events, clock, freeze=bool(sc.get("freeze")), eager=bool(sc.get("eager")), lifo=bool(sc.get("lifo")))
     from puresnmp import Client
     if sc.get("same_agent"):
         # several clients (different users, different pass-phrases, same hash) talk to ONE agent = one engine id
